@@ -136,7 +136,11 @@ func (j *judge) checkWG(w *kernels.WorkGroup) bool {
 				j.viol("member-outside-box", fmt.Sprintf("wavefront %d of work-group %v holds work-item (%d,%d,%d) outside the group's box %v", wi, id, it.IDX, it.IDY, it.IDZ, curr), ids)
 				return false
 			}
-			if f < wf.FirstWiFlatID || f >= wf.FirstWiFlatID+64 {
+			if f < wf.FirstWiFlatID {
+				j.viol("wavefront-member-before-first-lane", fmt.Sprintf("wavefront %d of work-group %v starts at flat id %d but holds work-item (%d,%d,%d) with flat id %d", wi, id, wf.FirstWiFlatID, it.IDX, it.IDY, it.IDZ, f), ids)
+				return false
+			}
+			if f >= wf.FirstWiFlatID+64 {
 				// signature of the defect confirmed on the pinned tree
 				j.knownSig++
 				out, miss := j.consequences(w)
